@@ -79,6 +79,13 @@ func collectStage(fn *ssa.Function) *stageInfo {
 				}
 				if cal := x.Call.StaticCallee(); cal != nil && cal.Blocks != nil && FuncPkg(cal) == FuncPkg(fn) {
 					si.callee = append(si.callee, cal)
+					// a wait helper: select { case <-ctx.Done(): return err; case <-ch: } on its channel parameter,
+					// called with a stage channel of the instance
+					if pi := ctxWaitHelperParam(cal); pi >= 0 && pi < len(x.Call.Args) {
+						if f, ok := instChanField(x.Call.Args[pi]); ok {
+							si.waits[f] = append(si.waits[f], ins)
+						}
+					}
 				}
 			case *ssa.MakeClosure:
 				si.callee = append(si.callee, x.Fn.(*ssa.Function))
@@ -94,6 +101,7 @@ func collectStage(fn *ssa.Function) *stageInfo {
 
 // RunPlonkConc checks CONC-CTX, CONC-CLOSE and CONC-DAG on every backend/plonk/<curve> package.
 func RunPlonkConc(p *Prog, r *Report) {
+	concProg = p
 	pkgs := map[string][]*ssa.Function{}
 	for _, fn := range p.Funcs {
 		pk := FuncPkg(fn)
@@ -138,6 +146,16 @@ func RunPlonkConc(p *Prog, r *Report) {
 				for i, ins := range si.waits[f] {
 					nWaits++
 					key := fmt.Sprintf("wait:%s#%d", f, i+1)
+					if hc, isCall := ins.(*ssa.Call); isCall {
+						// wait through a helper: the helper's own select was checked by ctxWaitHelperParam; the
+						// error it returns on cancellation must be used by the stage
+						if hasRealUse(hc) {
+							r.Pass("CONC-CTX", path, FuncName(fn), key, p.Pos(ins.Pos()), "wait on instance."+f+" through "+funcBaseName(hc.Call.StaticCallee())+": a select with a ctx.Done() case that returns an error, whose result the stage tests", true)
+						} else {
+							r.Fail("CONC-CTX", path, FuncName(fn), key, p.Pos(ins.Pos()), "the error returned by the wait helper on cancellation is discarded: the stage continues after cancellation")
+						}
+						continue
+					}
 					sel, isSel := ins.(*ssa.Select)
 					ok := false
 					doneIdx := -1
@@ -460,4 +478,59 @@ func RunSignal(p *Prog, r *Report, pattern string, minInst int) {
 			_ = producers
 		}
 	}
+}
+
+var ctxWaitMemo = map[*ssa.Function]int{}
+var concProg *Prog
+
+// ctxWaitHelperParam: index of the channel parameter of fn if fn is a context-aware wait helper (its only receive is
+// a blocking select on that parameter with a ctx.Done() case that returns an error); -1 otherwise.
+func ctxWaitHelperParam(fn *ssa.Function) int {
+	if v, ok := ctxWaitMemo[fn]; ok {
+		return v
+	}
+	ctxWaitMemo[fn] = -1
+	res := fn.Signature.Results()
+	if res.Len() != 1 || !isErrorType(res.At(0).Type()) {
+		return -1
+	}
+	found := -1
+	for _, b := range fn.Blocks {
+		for _, ins := range b.Instrs {
+			switch x := ins.(type) {
+			case *ssa.UnOp:
+				if x.Op == token.ARROW {
+					return -1 // a bare receive
+				}
+			case *ssa.Select:
+				if !x.Blocking || found >= 0 {
+					return -1
+				}
+				done := -1
+				chanParam := -1
+				for k, st := range x.States {
+					if st.Dir != types.RecvOnly {
+						return -1
+					}
+					if isCtxDone(st.Chan) {
+						done = k
+						continue
+					}
+					if pm, ok := st.Chan.(*ssa.Parameter); ok {
+						for i, q := range fn.Params {
+							if q == pm {
+								chanParam = i
+							}
+						}
+					}
+				}
+				if done < 0 || chanParam < 0 || !selectCaseRejects(concProg, x, done) {
+					return -1
+				}
+				found = chanParam
+			}
+		}
+	}
+	ctxWaitMemo[fn] = found
+	return found
 }
